@@ -274,7 +274,16 @@ def upgrade_chain(ctx):
     Q.require(len(ks) >= 10, 'upgrade steps not found')
     Q.require(len({g.fq for _, _, g, _ in ks}) == 1,
               'upgrade steps spread over several functions')
-    ks.sort(key=lambda x: x[1].lineno)
+    # execution order = pre-order position in the function body (statements
+    # generated from one table-driven loop share a line number)
+    order = {}
+
+    def number(n):
+        order[id(n)] = len(order)
+        for c in ast.iter_child_nodes(n):
+            number(c)
+    number(ks[0][2].node)
+    ks.sort(key=lambda x: order.get(id(x[1]), 0))
     vals = [k for k, _, _, _ in ks]
     ctx.ob(R, 'increasing', vals == sorted(vals), load.node,
            'upgrade steps are not applied in increasing order: {}'.format(
@@ -286,12 +295,21 @@ def upgrade_chain(ctx):
                vals[-1], cur))
     stored = set()
     for k, st, g, b in ks:
-        for n in ast.walk(st):
-            if isinstance(n, ast.Subscript) and isinstance(
-                    n.ctx, ast.Store) and has(F.atoms(n.value, g, b),
-                                              "['data']"):
-                kk = F.flow.const_keys(n.slice, g, b)
-                stored |= set(kk or ['*loop*'])
+        scopes = [(st, g, b)]
+        # a step may be a function applied to the data (`upgrade(data)`)
+        for c in ast.walk(st):
+            if isinstance(c, ast.Call):
+                callee = F.flow.resolve_call(c, g)
+                if callee is not None and callee.module is g.module:
+                    scopes.append((callee.node, callee, F.flow._bind_args(
+                        c, callee, g, b, 0, set())))
+        for root, g_, b_ in scopes:
+            for n in ast.walk(root):
+                if isinstance(n, ast.Subscript) and isinstance(
+                        n.ctx, ast.Store) and has(
+                            F.atoms(n.value, g_, b_), "['data']"):
+                    kk = F.flow.const_keys(n.slice, g_, b_)
+                    stored |= set(kk or ['*loop*'])
     for key in ('extra_args', 'library_mode', 'mopack', 'compdb', 'toolchain',
                 'host_platform', 'target_platform', 'bfgdir',
                 'backend_version'):
